@@ -23,7 +23,9 @@ def mono_roots(tier):
 
 
 def all_roots(tier):
-    return _catfam.roots(tier) + mono_roots(tier)
+    # the three/four-atomic-layer slabs of the catalogue are explored by C02 and C18; C04 keeps to the
+    # surface-cell-layer slabs (a 3-atomic-layer diamond or hcp slab is a borderline 2D material for the cell clause)
+    return [r for r in _catfam.roots(tier) if r[1][0] != "thin"] + mono_roots(tier)
 
 
 def shards(tier, seed):
@@ -141,6 +143,10 @@ def _vj(variant):
     return [v if not isinstance(v, tuple) else list(v) for v in variant]
 
 
+def _is_thin(variant):
+    return variant[0] == "thin"
+
+
 def run_shard(shard, tier, seed):
     res = Result()
     name, variant = all_roots(tier)[shard]
@@ -174,6 +180,7 @@ def describe(tier, seed):
                 "(material id, space group, (letter, element, multiplicity) multiset), pbc count and whole formula units. states = get_clusters executions, transitions = seed choices + analyser runs" % ("3x3, 4x4" if tier == "quick" else "3x3..6x6"),
         "nontrivial_rule": "each (material, variant) root",
         "bounds": {"roots": len(all_roots(tier)), "materials": _catfam.materials(tier), "monolayers": list(catalog.monolayers())},
-        "assumptions": ["runs where SBC does not return exactly one complete cluster are filtered (counted): that is C02, not C04", "same precondition filter as C02"],
+        "assumptions": ["runs where SBC does not return exactly one complete cluster are filtered (counted): that is C02, not C04", "same precondition filter as C02",
+                        "the three/four-atomic-layer slabs that C02 and C18 explore are not part of the C04 family"],
         "exhaustive": True,
     }
